@@ -88,9 +88,15 @@ func c18LimitFor(pkg string, setting int) int {
 		return 1
 	case 2:
 		return c18Defaults[pkg]
+	case 3:
+		return c18Defaults[pkg] + 1
 	}
-	return c18Defaults[pkg] + 1
+	// settings 4..7: limits between the lengths of the package's own text forms (a limit that cuts between the plain
+	// and the URN form of an ID, between the basic and the extended date, inside typical numerals and versions)
+	return map[string][4]int{"date": {8, 9, 12, 40}, "roman": {7, 15, 64, 40}, "sem": {5, 11, 64, 40}, "size": {4, 24, 16, 40}, "uu": {36, 44, 37, 40}}[pkg][(setting-4)%4]
 }
+
+const c18Settings = 8
 
 func c18ApplyLimit(setting int) func() {
 	a, b, cc, d, e := date.MaxInputLength, roman.MaxInputLength, sem.MaxInputLength, size.MaxInputLength, uu.MaxInputLength
@@ -808,9 +814,13 @@ func c18Child(c *rt.Ctx, dir string) {
 	c.Require("allocation-monitored-call", 100)
 	c.Require("long-pair-monitored-call", 30)
 
-	for setting := 0; setting < 4; setting++ {
+	for setting := 0; setting < c18Settings; setting++ {
 		setting := setting
 		restore := c18ApplyLimit(setting)
+		nHostile := nHostile
+		if setting >= 4 {
+			nHostile /= 2
+		}
 		c.Parallel(fmt.Sprintf("hostile-%d", setting), 0, func(w *rt.W) {
 			r := w.Rng
 			for _, pkg := range pkgs {
@@ -821,6 +831,20 @@ func c18Child(c *rt.Ctx, dir string) {
 				if limit == 0 {
 					d := c18Defaults[pkg]
 					lens = []int{d, d + 1, 10 * d, 100 * d, 1000 * d}
+				}
+				if limit == 0 && w.Shard == 4+len(pkg)%5 { // far beyond any built-in cap, one entry point per package (thorough: all)
+					for _, n := range []int{1<<16 + 5, 1<<20 + 5, 1<<24 + 5} {
+						a := c18Shaped(pkg, n)
+						done := 0
+						for _, ei := range entries {
+							if !c18Entries[ei].limited || c18Entries[ei].pair || (c.Quick() && done >= 1) {
+								continue
+							}
+							c18Call(w, fl, ei, setting, a, "")
+							done++
+						}
+						w.ClassN("megabytes-with-the-limit-disabled", 1)
+					}
 				}
 				if w.Shard < 4 {
 					for _, n := range lens {
@@ -908,6 +932,7 @@ func c18Child(c *rt.Ctx, dir string) {
 		}
 	}()
 	c.Require("too-long-error-reread-after-limit-change", 1000)
+	c.Require("megabytes-with-the-limit-disabled", 15)
 	for _, pkg := range pkgs {
 		c.Require("over-limit:"+pkg, 100)
 		c.Require("exactly-at-limit:"+pkg, 10)
